@@ -113,7 +113,9 @@ NSDiscover(cfg, st, req, out, gf) ==
       mayAccept == ~st.mapper.known \/ st.mapper.real = req.rs
       ok == /\ Chk("C02") => Len(fr) <= 1 /\ OpsIn(fr, {OpHello})
             /\ Chk("C05") => (replied <=> mayAccept)
-            /\ Chk("C03") => (replied => Len(fr) = 1 /\ HelloOK(cfg, req, fr[1]))
+            \* an accepted Discover (C05's rule, on the tracked mapper) is answered - by exactly one correct Hello
+            /\ Chk("C03") => /\ replied => (Len(fr) = 1 /\ HelloOK(cfg, req, fr[1]))
+                             /\ mayAccept => replied
             /\ Chk("C04") => (replied /\ fr[1].op = OpHello => HelloAttrsOK(cfg.attrs, fr[1].tlvs, gf))
   IN IF ok THEN { IF replied THEN MapperSet(st, req.rs, req.es) ELSE st } ELSE {}
 
@@ -210,7 +212,8 @@ NSLarge(cfg, st, req, out) ==
             /\ Chk("C08") => IF req.seq = 0 THEN fr = << >>
                              ELSE /\ CmdInDomain(st, req) => Len(fr) = 1
                                   /\ Len(fr) >= 1 => LargeRespOK(cfg, req, fr[1])
-  IN IF ok THEN (IF req.seq = 0 THEN {st} \cup AfterCommand(st, req) ELSE AfterCommand(st, req)) ELSE {}
+  \* a request with sequence number 0 is ignored: it is not answered and opens nothing
+  IN IF ok THEN (IF req.seq = 0 THEN {st} ELSE AfterCommand(st, req)) ELSE {}
 
 (* ------------------------------------------------------------------ Reset, everything else *)
 NSReset(cfg, st, req, out) ==
